@@ -160,7 +160,7 @@ def rule_pow(ctx: Ctx, rep: Report) -> None:
     rep.ob(rule, "encode:pivot", piv is not None, bt.where(piv), "shift left at or below 3, right above")
     sb = PT.find(bt.node, "if $s & _SIGNIFICAND_SIGN_BIT:\n    $s >>= 8\n    $e += 1", me)
     rep.ob(rule, "encode:sign_bit", sb is not None, bt.where(sb), "a mantissa with the sign bit set is shifted and the exponent incremented")
-    rep.ob(rule, "encode:length", has_bound(refusal_constraints(ctx, bt), ">", 32, subject="len(target)") is not None or any(c.subject == "len(target)" and c.op == ">" for c in refusal_constraints(ctx, bt)), bt.where(), "targets longer than 32 bytes refused")
+    rep.ob(rule, "encode:length", any(c.subject.startswith("len(") and c.op in (">", ">=") for c in refusal_constraints(ctx, bt)), bt.where(), "targets longer than 32 bytes refused")
     nb = ctx.func(f"{PW}.next_bits")
     txt = PT.text(nb)
     rep.ob(rule, "retarget:clamp", "actual_timespan = max(actual_timespan, POW_TARGET_TIMESPAN // 4)" in txt and "actual_timespan = min(actual_timespan, POW_TARGET_TIMESPAN * 4)" in txt, nb.where(), "timespan clamped to [T/4, 4T]")
